@@ -181,6 +181,26 @@ Definition wrap (v : fvariant) (c : cfg) (pf : profile) (spar : list N) (payload
       bind (pack c spar (pay_id payload) sender rcpts rn) (fun w0 => nest v c pf 0 r0 routing w0 rn)
   end.
 
+(* A media type profile the packager has no packer for ("application/didcomm-enc-env", any unknown string that was
+   the sender's default): packager.getCTYAndPacker hands EVERY pack — the payload's and each forward's — to the
+   framework's primary packer [prim], whatever the sender key.  The forwards are 1.0 forwards, 'to' is not rewritten.
+   An anoncrypt primary packer ignores the sender key: the send is [wrap] with that packer.  An authcrypt primary
+   packer needs a sender key: a forward has none, so a destination with routing keys cannot be sent to (fail closed);
+   without routing keys it is [wrap] with that packer. *)
+Definition primary_profile (prim : packer) : profile := if is_legacy prim then PLegacy else PJweV1.
+Definition wrap_primary (v : fvariant) (prim : packer) (kt : ktype) (e : encalg) (st : kstyle) (spar : list N)
+                        (payload sender : N) (rcpts : list N) (routing : list hop) (rn : rnd) : res (wire * list layer) :=
+  let c := mkcfg prim kt e st in
+  if is_auth prim then
+    match routing with
+    | [] => wrap v c (primary_profile prim) spar payload sender rcpts [] rn
+    | _ :: _ => match rcpts with
+                | [] => Err ERejected
+                | _ => bind (pack c spar (pay_id payload) sender rcpts rn) (fun _ => Err ERejected)
+                end
+    end
+  else wrap v c (primary_profile prim) spar payload sender rcpts routing rn.
+
 (* which text a number stands for *)
 Fixpoint fwd_lookup (ls : list layer) (n : N) : option plain :=
   match ls with
